@@ -40,8 +40,9 @@ using std::endl;
 using std::ostringstream;
 using std::stringstream;
 
+// indexed by ParserBuilder::PREFIX (a bit set: 1 const, 2 urgent, 4 broadcast, 8 meta, 16 hybrid)
 static const std::string prefix_labels[] = {"", "const ", "urgent ", "", "broadcast ", "", "urgent broadcast ",
-                                            "", "meta "};
+                                            "", "meta ", "", "", "", "", "", "", "", "hybrid "};
 
 void PrettyPrinter::indent()
 {
